@@ -46,7 +46,8 @@ MUTANTS = {  # broken variant of the model -> table it is checked on
 }
 QUICK_MUTANTS = ["no_allow", "retry_dt_seconds", "unescaped_desc", "orig_retry0", "orig_slash", "location_raw", "abort_subclass",
                  "default_subclass"]
-LEAST_EXPORTED = {"render": 1200, "redirect": 300, "slash": 1000, "abort": 400}
+LEAST_EXPORTED = {True: {"render": 1400, "redirect": 400, "slash": 800, "abort": 500},       # quick
+                  False: {"render": 6000, "redirect": 3000, "slash": 50000, "abort": 500}}  # thorough
 
 
 def _do(case):
@@ -141,7 +142,7 @@ def judge_cases(ctx: Ctx, cases, kind, extra_lines=(), selftest=False):
         ln["t"] = len(lines) + k
     t0 = ctx.elapsed()
     ndrift = len(ctx.model_drift)
-    rejects = ctx.judge(AREA, "HttpExcTrace", lines + [x[2] for x in corrupted], batch=1000)
+    rejects = ctx.judge(AREA, "HttpExcTrace", lines + [x[2] for x in corrupted], batch=1000 if ctx.quick else 4000)
     ctx.notes["wall_judge_s"] = round(ctx.notes.get("wall_judge_s", 0) + ctx.elapsed() - t0, 1)
     kinds = ctx.notes.setdefault("model_drift_kinds", {})
     for d in ctx.model_drift[ndrift:]:
@@ -305,7 +306,7 @@ def run(ctx: Ctx):
     for f in FAMILIES:
         n = len([c for c in cases if (c.get("fn") == "slash") == (f == "slash") and c["op"] == ("redirect" if f == "slash" else f)])
         ctx.notes["exported_" + f] = n
-        if n < (LEAST_EXPORTED[f] if q else 2 * LEAST_EXPORTED[f]):
+        if n < LEAST_EXPORTED[q][f]:
             raise tlc.MachineryError(f"export {f}: only {n} cases")
     cases = _expand_exported(cases)
     ctx.notes["exported_cases_replayed"] = len(cases)
